@@ -35,6 +35,9 @@ type verifPipelineCase struct {
 	// GOMAXPROCS for the duration of the case (0: unchanged).  With 1, a buffer Put into a sync.Pool by a worker is the very
 	// next buffer the receive loop Gets (no per-P private slot hides it), which makes pool misuse deterministic
 	Procs int `json:"procs"`
+	// workers told to quit (their quit channel is closed, as dynWorkers does when it scales down) after start-up and BEFORE the
+	// datagrams arrive; the remaining ones process the datagrams
+	Retire int `json:"retire"`
 	// enterprise elements to install into ipfix.InfoModel first: [enterprise no, element id, FieldType]
 	ExtElements [][3]uint32 `json:"ext_elements"`
 }
@@ -48,7 +51,9 @@ type verifPipelineResult struct {
 	// all datagrams were processed (delayed consumer), in queue order
 	MirroredMsgs [][2]string `json:"mirrored_msgs"`
 	// receive buffers found in the pool afterwards whose length is not the configured UDP size
-	ShortBuffers int    `json:"short_buffers"`
+	ShortBuffers int `json:"short_buffers"`
+	// workers that had not returned 5 s after their quit channel was closed
+	StuckWorkers int    `json:"stuck_workers"`
 	Error        string `json:"error,omitempty"`
 }
 
@@ -203,6 +208,14 @@ func verifPipeline(raw []byte) interface{} {
 	for len(mq) > 0 {
 		<-mq
 	}
+	if c.Retire > 0 && c.Retire < len(quits) {
+		time.Sleep(20 * time.Millisecond) // let every worker reach its receive
+		for _, q := range quits[:c.Retire] {
+			close(q)
+		}
+		quits = quits[c.Retire:]
+		time.Sleep(20 * time.Millisecond)
+	}
 	for _, d := range c.Dgrams {
 		b, _ := hex.DecodeString(d[1])
 		enqueue(verifAddr(d[0]), b)
@@ -228,7 +241,17 @@ func verifPipeline(raw []byte) interface{} {
 	for _, q := range quits {
 		close(q)
 	}
-	wg.Wait()
+	stopped := make(chan struct{})
+	go func() { wg.Wait(); close(stopped) }()
+	select {
+	case <-stopped:
+	case <-time.After(5 * time.Second):
+		// a worker that does not look at its quit channel until a datagram arrives: wake the parked ones up so that the process
+		// can go on, and report them
+		res.StuckWorkers = 1
+		res.Error = "workers did not stop within 5 s after their quit channel was closed"
+		return res
+	}
 	// the delayed consumer: only now is the outgoing queue read
 	for len(mq) > 0 {
 		res.Published = append(res.Published, hex.EncodeToString(<-mq))
